@@ -590,6 +590,31 @@ class system_dir:
     importlib.invalidate_caches()
 
 
+class closing_mkstemp:
+  """importlab.fs.OSFileSystem() probes case sensitivity with tempfile.mkstemp() and keeps neither
+  the descriptor nor the file; close and remove them (hundreds of trees per run)."""
+
+  def __enter__(self):
+    import tempfile
+    self.orig, self.made = tempfile.mkstemp, []
+
+    def mkstemp(*a, **k):
+      r = self.orig(*a, **k)
+      self.made.append(r)
+      return r
+    tempfile.mkstemp = mkstemp
+
+  def __exit__(self, *exc):
+    import tempfile
+    tempfile.mkstemp = self.orig
+    for fd, path in self.made:
+      try:
+        os.close(fd)
+        os.unlink(path)
+      except OSError:
+        pass
+
+
 def importlab_case(S0, base, rng, names):
   """Write a tree, resolve it as analyze_project.main does, read the structure off the real
   ImportGraph, run the planner on that graph."""
@@ -606,9 +631,10 @@ def importlab_case(S0, base, rng, names):
   conf = _conf(out, inputs)
   conf.pythonpath = [root]
   typeshed = environment.initialize_typeshed_or_die()
-  env = ap_env.create_importlab_environment(conf, typeshed)
-  # as if typeshed had one more third-party stub directory
-  env.path.append(importlab.fs.PYIFileSystem(importlab.fs.OSFileSystem(stubdir)))
+  with closing_mkstemp():
+    env = ap_env.create_importlab_environment(conf, typeshed)
+    # as if typeshed had one more third-party stub directory
+    env.path.append(importlab.fs.PYIFileSystem(importlab.fs.OSFileSystem(stubdir)))
   with system_dir(stubdir):
     g = importlab.graph.ImportGraph.create(env, sorted(inputs), trim=True)
   # structure as importlab sees it: nodes in the order deps_from_import_graph visits them
@@ -747,9 +773,13 @@ def main():
   boot.boot()
   base = os.path.join(BASE, "p%d" % os.getpid())
   shutil.rmtree(base, ignore_errors=True)
+  import tempfile
+  tempfile.tempdir = os.path.join(base, "tmp")      # scratch files only under /verif/build
+  os.makedirs(tempfile.tempdir)
   try:
     return body(run, a, base)
   finally:
+    tempfile.tempdir = None
     shutil.rmtree(base, ignore_errors=True)
 
 
@@ -778,7 +808,7 @@ def body(run, a, base):
   thorough = run.tier == "thorough"
   # 1. the design: planner + executor over every structure and every schedule (runs in the
   #    background while the real planner is exercised)
-  bounds = ([(4, 4, "lss", "any"), (5, 2, "l", "mono"), (4, 3, "x", "mono")] if thorough
+  bounds = ([(4, 4, "lss", "any"), (5, 2, "l", "mono"), (3, 3, "x", "any")] if thorough
             else [(3, 3, "all", "any"), (3, 3, "x", "any")])
   import concurrent.futures as cf
   mex = cf.ThreadPoolExecutor(max_workers=2)
@@ -789,7 +819,9 @@ def body(run, a, base):
   #    ("x": Local / requested Local / System / pytype_extensions.* of System provenance)
   fams = [("exh3-all", 3, 3, "all", "any"), ("exh3-x", 3, 3, "x", "any"), ("exh4-l", 4, 4, "l", "any")]
   if thorough:
-    fams = [("exh3-all", 3, 3, "all", "any"), ("exh4-lss", 4, 4, "lss", "any"), ("exh4-x", 4, 4, "x", "any"),
+    # (4 files of kind set "x" would be 35 k more plans; the 5- and 6-file simulations below draw
+    # from all kinds including pytype_extensions.*)
+    fams = [("exh3-all", 3, 3, "all", "any"), ("exh3-x", 3, 3, "x", "any"), ("exh4-lss", 4, 4, "lss", "any"),
             ("exh5-l", 5, 3, "l", "mono")]
   seen = set()
   total = 0
@@ -856,21 +888,24 @@ def body(run, a, base):
   tcases = []
   ext_trees = 0
   for want_ext in (True, False):
+    tried = 0
     for S in pool:
-      if (ext_trees >= ntrees // 4) if want_ext else (len(tcases) >= ntrees):
+      if (ext_trees >= ntrees // 4 or tried >= ntrees) if want_ext else (len(tcases) >= ntrees):
         break
       if len(S["kind"]) < 3 or imports_ext(S) != want_ext:
         continue
+      tried += 1
       c = importlab_case(S, scratch(), rng, FAMILY[(len(tcases) + run.seed) % len(FAMILY)])
-      if c is not None and len(c["plan"]) >= 2 and (ext_read(c) or not want_ext):
+      # counted on the structure importlab derived (the input of the planner), not on the plan
+      if c is not None and (len(c["plan"]) >= 2 or c["crash"]) and (imports_ext(c["S"]) or not want_ext):
         tcases.append(c)
-        ext_trees += 1 if ext_read(c) else 0
+        ext_trees += 1 if imports_ext(c["S"]) else 0
   common.require(len(tcases) >= ntrees // 2, "too few importlab trees: %d" % len(tcases))
   stats.add(tcases)
   total += judge(run, tcases, "importlab", shards=1)
   run.put("importlab_trees", len(tcases))
   run.put("importlab_trees_with_cycle", sum(1 for c in tcases if any(st["out"].endswith("-1") for st in c["plan"])))
-  run.put("importlab_trees_reading_pytype_extensions", ext_trees)
+  run.put("importlab_trees_importing_pytype_extensions", ext_trees)
   run.put("importlab_kinds", sorted({k for c in tcases for k in c["S"]["kind"]}))
   run.sample({"family": "importlab", "S": tcases[0]["S"], "files": tcases[0]["tree"]["files"]})
   print("  [importlab] %d trees, t=%.0fs" % (len(tcases), time.time() - run.t0), flush=True)
@@ -925,14 +960,17 @@ def body(run, a, base):
           "setup_build, read back, executed by TLC under every schedule; non-trivial = at least two "
           "build statements and a declared dependency")
   common.require(nontriv > 300 and two_pass > 100, "vacuity: %d non-trivial, %d two-pass plans" % (nontriv, two_pass))
-  common.require(stats.ext_read >= 200 and ext_trees >= ntrees // 8,
-                 "vacuity: %d plans (%d importlab trees) in which a step reads the stub of a "
-                 "pytype_extensions step" % (stats.ext_read, ext_trees))
-  for r, least in (("root", 20), ("out", 20), ("sys", 5)):
-    for t in FAMILY:
-      common.require(stats.role[r].get(t[r], 0) >= least,
-                     "vacuity: directory name %r used as %s in only %d non-trivial plans" % (
-                         t[r], r, stats.role[r].get(t[r], 0)))
+  # the counters below are read off the plans the code wrote; a run that already has a violation
+  # to report is not made a machinery failure by them (a broken planner writes broken plans)
+  if not run.violations:
+    common.require(stats.ext_read >= 200 and ext_trees >= ntrees // 8,
+                   "vacuity: %d plans (%d importlab trees) in which a step reads the stub of a "
+                   "pytype_extensions step" % (stats.ext_read, ext_trees))
+    for r, least in (("root", 20), ("out", 20), ("sys", 5)):
+      for t in FAMILY:
+        common.require(stats.role[r].get(t[r], 0) >= least,
+                       "vacuity: directory name %r used as %s in only %d non-trivial plans" % (
+                           t[r], r, stats.role[r].get(t[r], 0)))
   run.assumptions += [
       "a step reads its input, its imports file and every target of its imports map (over-approximation of what pytype-single opens)",
       "requested files are Local/Direct modules that occur in the import graph; module names are distinct; pytype_extensions.* modules are of System provenance and never requested",
